@@ -400,8 +400,10 @@ class C13(Sim):
                         p = EO.graph_problem(c)
                         if p:
                             v = viol("copy_references_objects_outside_itself", i, problem=p)
-                        elif c is L.engine or any(a is b for a, b in zip(c.variables, L.engine.variables)):
-                            v = viol("copy_shares_objects_with_source", i, problem="variable objects shared")
+                        else:
+                            sh = EO.shared_objects(c, L.engine)
+                            if sh:
+                                v = viol("copy_shares_objects_with_source", i, problem=sh)
                     new = Live(c, replayed(L.spec_restart, L.log), copy.deepcopy(L.spec_restart), copy.deepcopy(L.spec_now),
                                list(L.log), L.depth + 1)
                     new.restarted = L.restarted
